@@ -1533,7 +1533,7 @@ func (x *Exec) monitors(fr *Frame, st *State, key, rel, when string, args []Valu
 		if m.When != when {
 			continue
 		}
-		if !(m.Callee == key || m.Callee == rel || strings.HasSuffix(key, "."+m.Callee) || strings.HasSuffix(stripTypeArgs(key), "."+m.Callee)) {
+		if !(m.Callee == key || m.Callee == rel || m.Callee == stripTypeArgs(key) || strings.HasSuffix(key, "."+m.Callee) || strings.HasSuffix(stripTypeArgs(key), "."+m.Callee)) {
 			continue
 		}
 		env := &SpecEnv{x: x, vars: map[string]SVal{}, st: st, old: fr.top.entry, pkg: fnTypesPkg(fr.top.fn), lets: map[string]*Expr{}, free: x.freeOf[con], fr: fr.top}
